@@ -526,7 +526,13 @@ def binary_rule(rep, prog, cfg):
     bbb, bt = bins[0]
     msg = op_local(bt["args"][1])
     # the payload buffer is the split-off message
-    leaves, _ = fl.sources([msg], through_call=None, follow_mut=False)
+    # (through the `?` / tuple a helper may hand the split-off message back in; a by-value helper that only cuts it is spliced in)
+    def thr(t2, kind=None):
+        ns2 = callee_names(t2)
+        if any(n in ("core::ops::try_trait::Try::branch", "core::ops::try_trait::FromResidual::from_residual") for n in ns2):
+            return (0,)
+        return None
+    leaves, _ = fl.sources([msg], through_call=thr, follow_mut=False)
     from_split = any(x[0] == "call" and "bytes::bytes_mut::BytesMut::split_to" in callee_names(b.blocks[x[1]]["t"]) for x in leaves)
     rep.check(from_split, rule, cfg + "/payload is the split-off message", b.loc(b.blocks[bbb]["ts"]),
               "the binary payload handed to the builder is not the message buffer split off the receive buffer")
